@@ -1060,7 +1060,7 @@ def run(ctx: Ctx, st: Optional[LeanStatus]) -> Result:
         replay_witnesses(ctx, res, rig)
         specs = [s for _, s in corpus_specs() if "query" in s] + HAND_CASES
         rng = ctx.sub_rng("calls")
-        specs += [gen_call(rng, n) for n in range(ctx.budget(2500, 20000))]
+        specs += [gen_call(rng, n) for n in range(ctx.budget(2500, 40000))]
         for lo in range(0, len(specs), 2000):
             judge(ctx, st, specs[lo: lo + 2000], res, rig)
     finally:
